@@ -7,6 +7,7 @@ version:  `ver l<code points>`            → `ok none` | `exc ValueError` | `ok
           `tbl pe|enum <key>`             → looked-up text (code points) + the `ver` answer for it
           `cfg <stamp none|int> l<enums>` → `ok <text>` | `exc ValueError`   (BeaconConfig.version precedence)
           `fmt <maj> <min> <patch none|n> <y> <m> <d>` → formatted text + its `ver` answer
+          `cls <lo> <hi>`                 → one character per code point in [lo, hi): `s` = `\s`, `0`..`9` = value of a `\d`, `-`
           `mono pe|enum <k1> <k2>`        → `T`/`F`: k1 < k2 ⇒ (tuple, date) of k1 ≤ those of k2 (both keys in the table)
 -/
 namespace C18
@@ -93,6 +94,16 @@ def step : List String → String
       if which == "pe" then showBool (monotoneAt Gen.Version.peExportStampEntries k1 k2)
       else if which == "enum" then showBool (monotoneAt Gen.Version.maxEnumEntries k1 k2)
       else "bad-op"
+    | _, _ => "bad-op"
+  | ["cls", lo, hi] =>
+    match natTok lo, natTok hi with
+    | some lo, some hi =>
+      String.ofList ((List.range (hi - lo)).map fun i =>
+        let c := lo + i
+        if isSpace c then 's' else
+        match digitValue? c with
+        | some v => Char.ofNat (48 + v)
+        | none => '-')
     | _, _ => "bad-op"
   | ["cfg", stamp, enums] =>
     match optTok intTok stamp, natsTok enums with
